@@ -1,0 +1,22 @@
+//go:build verif
+
+package slog
+
+// Contracts for property C07 (attribute assembly): uniqueness and order. The sources and their order
+// (context, logger chain, call arguments) are the C07 clauses of collectArgs / fromCtx / walkParentAttrs /
+// argsToAttrs in zz_verif_contracts.go. Read by /verif/bin/lvc; never compiled into a normal build.
+
+// the comparator serializeAttrs sorts with: nil entries first, then ascending key order
+//@ func serializeAttrs$1
+//@   props C07
+//@   assigns nothing
+//@   ensures [C07.cmp-nil] implies(isnil(a) && isnil(b), result == 0) && implies(isnil(a) && !isnil(b), result == -1) && implies(!isnil(a) && isnil(b), result == 1)
+//@   ensures [C07.cmp-key] implies(!isnil(a) && !isnil(b), (result == -1) == (k1 < k2) && implies(!(k1 < k2), (result == 0) == (k1 == k2)) && -1 <= result && result <= 1)
+//@   at call (Attr).Key assert [C07.cmp-args] callee.self == a || callee.self == b
+
+// the equivalence dedupeSlice collapses: equal keys (nil only equals nil)
+//@ func serializeAttrs$2
+//@   props C07
+//@   assigns nothing
+//@   ensures [C07.eq-nil] implies(isnil(a) || isnil(b), result == (isnil(a) && isnil(b)))
+//@   at call (Attr).Key assert [C07.eq-args] callee.self == a || callee.self == b
